@@ -114,7 +114,7 @@ def register(R, tier="quick"):
             ok = ok and any(x is env["self"].fields["generation"] for x in wints)
             ok = ok and any(m == "stream.write_pickle" and a[0] is env["self"].fields["segments"] for m, a in ms)
         return z3.BoolVal(bool(ok))
-    R.contract(IX + ":TOC.write", props=["C02"], setup=setup_tw,
+    R.contract(IX + ":TOC.write", props=["C02", "C03"], setup=setup_tw,
                externals={"pickle.dumps": lambda I, args, kw, node: Opaque("pickled"), "time.time": lambda I, args, kw, node: Opaque("now")},
                ensures=[tw_post],
                canaries=[Canary("rename-before-close", "stream.close()\n    storage.rename_file(tempfilename, tocfilename, safe=True)",
